@@ -14,9 +14,9 @@ from tools.vlib import Outcome, sx
 from tools.props import c08_common as C
 
 MANIFEST = {
-    "level_text": "Coq theorems (Properties/C17.v, no axioms) about the run/cache state machine of Model/C08Run.v (writes in the order types.ts, commands.ts, [events.ts], index.ts, [dependency-graph.txt, .dot], record last; a failing record write is a warning), faithful instance: for every state, discovery order and position k of the failing write, a non-forced run that reaches the writes reports Failure when a file of the plan cannot be written, leaves the record untouched and exactly the first k files written; when only the record cannot be written it reports Success with all files in place and no record; afterwards the record never vouches for the current inputs; the next non-forced run regenerates everything and records the current fingerprint; a run that changes the record has written every file first. Tied to /repo by injecting write faults at open time (EISDIR, unusable output path) and after a successful open (file pre-created as a symbolic link to /dev/full; RLIMIT_FSIZE 0 - the failed write leaves no file behind since the repair C17-1) into first runs, runs after hashed edits and runs over a matching record after a lost file, through every entry point that generates - `generate`, the `init` subcommand, BuildSystem::generate_at_build_time (all compared step by step with the extracted model) and generate_from_config (no record; judged by the oracle and the write plan) - for small and > 8 KiB contents, followed by recovery runs.",
+    "level_text": "Coq theorems (Properties/C17.v, no axioms) about the run/cache state machine of Model/C08Run.v (writes in the order types.ts, commands.ts, [events.ts], index.ts, [dependency-graph.txt, .dot], record last; a failing record write is a warning), faithful instance: for every state, discovery order and position k of the failing write, a non-forced run that reaches the writes reports Failure when a file of the plan cannot be written, leaves the record untouched and exactly the first k files written; when only the record cannot be written it reports Success with all files in place and no record; afterwards the record never vouches for the current inputs; the next non-forced run regenerates everything and records the current fingerprint; a run that changes the record has written every file first. Lift to histories (Model/C17History.v, Proofs/C17HistoryProofs.v): for every list of run steps - forced or not, fault-free or failing at any write k, each optionally preceded by an arbitrary edit - from the empty directory, the invariant Inv17 (a record on disk is the fingerprint of the generation that wrote it and, unless a failed run has written over the output since, every file of that generation is in place and complete) holds (C17_inv_init, C17_inv_step, C17_history, induction over fold_left), and after any such history a non-forced run that reports success leaves exactly the files of a fresh generation, one that reports up to date does so when the output is clean and outside C08's recorded class (C17_history_success_means_current). Tied to /repo by injecting write faults at open time (EISDIR, unusable output path) and after a successful open (file pre-created as a symbolic link to /dev/full; RLIMIT_FSIZE 0 - the failed write leaves no file behind since the repair C17-1) into first runs, runs after hashed edits and runs over a matching record after a lost file, through every entry point that generates - `generate`, the `init` subcommand, BuildSystem::generate_at_build_time (all compared step by step with the extracted model) and generate_from_config (no record; judged by the oracle and the write plan) - for small and > 8 KiB contents, followed by recovery runs.",
     "design_ref": "DESIGN.md section 5 C08, C14, C17; section 11 fault_recovery",
-    "level_note": "Faults are whole-write failures (EISDIR, ENOTDIR/EEXIST on the output path): a crash or short write in the middle of one fs::write is not exercised and appears in the model only as 'the k-th write fails'; the history [run; edit; failing run; revert the edit; run] (an edit between fault and recovery) ends up to date over mixed files on the model and is outside the property's quantifier; a failing write of .typecache alone is reported as success with a warning (exit 0), which the check accepts because no binding is missing and no record is kept; recovery is claimed for orders with the same fingerprint (single-file projects in the check).",
+    "level_note": "Faults are whole-write failures (EISDIR, ENOTDIR/EEXIST on the output path): a crash or short write in the middle of one fs::write is not exercised and appears in the model only as 'the k-th write fails'; the unrestricted history statement (C17_history_full_statement, not asserted) is false on the model: C17_history_refuted is the computed witness [generate A (no events); edit to B (events) and fail at events.ts; revert to A; run] = up to date over B's types.ts/commands.ts - an edit (a revert to the recorded inputs) between fault and recovery, outside the property's quantifier; since C17-1 a revert is only dangerous when the failing file is not in the reverted plan (otherwise the removed file fails the presence test); a failing write of .typecache alone is reported as success with a warning (exit 0), which the check accepts because no binding is missing and no record is kept; recovery is claimed for orders with the same fingerprint (single-file projects in the check).",
     "technique": "Rocq/Coq proof over hand-written model + correspondence check (extracted OCaml vs real binary and Rust driver)"
 }
 
